@@ -175,11 +175,14 @@ class Index:
         self.param_names = canon.pinned_parameter_names(self)
         self.defaulted = canon.specialise_default_parameters(self)
         self.functional = canon.desugar_functional_idioms(self)
+        self.lazy_memos = canon.inline_lazy_attr_memos(self)
         self.yieldfroms = canon.desugar_yield_from(self)
         self.enumerates = canon.desugar_enumerate_idioms(self)
         self.replicated = canon.desugar_replicated_unpack(self)
         self.unrolled_tables = canon.unroll_literal_tables(self)
         self.memos = canon.inline_local_memos(self)
+        self.keyed_tables = canon.inline_keyed_tables(self)
+        self.zero_width_guards = canon.drop_zero_width_guards(self)
         self.counters = canon.desugar_counters(self)
         self.fused = canon.fuse_record_lists(self)
         self.positional = canon.positional_calls(self)
